@@ -7316,8 +7316,12 @@ tsk_tree_map_mutations(tsk_tree_t *self, int32_t *genotypes,
                 allele_count[allele] += bit_is_set(optimal_set[v], allele);
             }
         }
-        /* the virtual root has no flags defined */
-        if (u == (tsk_id_t) N || !(node_flags[u] & TSK_NODE_IS_SAMPLE)) {
+        /* the virtual root has no flags defined. A sample whose observation
+         * is missing is treated like a non-sample node, so that it does not
+         * hide the states of the samples below it. */
+        if (u == (tsk_id_t) N || !(node_flags[u] & TSK_NODE_IS_SAMPLE)
+            || optimal_set[u] == UINT64_MAX) {
+            optimal_set[u] = 0;
             max_allele_count = 0;
             for (allele = 0; allele < num_alleles; allele++) {
                 max_allele_count = TSK_MAX(max_allele_count, allele_count[allele]);
